@@ -1,8 +1,10 @@
 """C11 - requests are isolated from each other's transient state (differential: used engine vs
 fresh engine on a byte copy of the same database)."""
+import copy
+
 from hypothesis import strategies as st
 
-from vlib import core, harness as H, hist, store
+from vlib import core, fixtures as F, harness as H, hist, store
 
 PID = "C11"
 LEVEL = "exploration"
@@ -92,8 +94,9 @@ def gen_req(draw, idx, probe=False):
     # header options: every one of them belongs to this request only
     if draw(st.integers(0, 3)) == 0:
         opt = draw(st.sampled_from(["async-true", "async-false", "undo", "order-false", "order-true",
-                                    "stale-time", "future-time", "credential", "max"]
-                                   if not probe else ["async-false", "order-true", "credential"]))
+                                    "stale-time", "future-time", "credential", "max", "time", "time"]
+                                   if not probe else ["async-false", "order-true", "credential",
+                                                      "time", "time"]))
         if opt == "async-true":
             req["async"] = True
         elif opt == "async-false":
@@ -102,6 +105,10 @@ def gen_req(draw, idx, probe=False):
             req["cont"] = "UNDO"
         elif opt.startswith("order"):
             req["order"] = opt.endswith("true")
+        elif opt == "time":
+            # a Time Stamp the server accepts (clients' clocks differ by seconds): whether it is
+            # older or newer than one an earlier request carried is nobody's business
+            req["ts_off"] = draw(st.sampled_from([0, 0, -5, -30, -55, 10, 40]))
         elif opt == "stale-time":
             req["ts"] = 1_000_000_000
         elif opt == "future-time":
@@ -117,7 +124,17 @@ def gen_req(draw, idx, probe=False):
 def gen_case(draw):
     _, idx = store.standard_template()
     n = draw(st.integers(1, 4))
-    return {"prefix": [draw(gen_req(idx)) for _ in range(n)], "probe": draw(gen_req(idx, probe=True))}
+    case = {"prefix": [draw(gen_req(idx)) for _ in range(n)], "probe": draw(gen_req(idx, probe=True))}
+    _skew(draw, case["prefix"] + [case["probe"]])
+    return case
+
+
+def _skew(draw, reqs):
+    """One case in six: every request carries a Time Stamp from a clock of its own."""
+    if draw(st.integers(0, 5)) == 0:
+        for r in reqs:
+            if "ts" not in r:
+                r["ts_off"] = draw(st.sampled_from([0, -5, -30, -55, 10, 40]))
 
 
 def _send(server, req, now):
@@ -125,6 +142,8 @@ def _send(server, req, now):
     who = req.pop("who")
     groups = req.pop("groups", None)
     H.CLOCK.now = now
+    if "ts_off" in req:
+        req["ts"] = now + req.pop("ts_off")
     data = H.encode_request(req)
     return server.process(data, (who, groups)), data
 
@@ -207,14 +226,55 @@ def gen_session_case(draw):
         if mx is not None:
             r["max"] = mx
         reqs.append(r)
+    _skew(draw, reqs)
     return {"mode": "session", "who": who, "prefix": reqs[:-1], "probe": reqs[-1],
             "chunks": draw(st.sampled_from([None, None, [7], [1, 64], [8, 8, 1000]]))}
+
+
+SESSION_NOW = 1_700_000_200
+BIG_SIZES = [1 << 20, (1 << 20) + 1, (1 << 20) + 4096, 3 << 19]
+
+
+def big_cases(sizes):
+    """A request far larger than anything else on the connection (an opaque object of a megabyte
+    and more, which the server accepts and stores) in front of ordinary requests.  The library
+    handles such messages byte by byte (tens of seconds each), hence a fixed handful of cases."""
+    out = []
+    for k, n in enumerate(sizes):
+        big = {"who": "alice", "groups": None, "v": [1, 2], "big": n}
+        small = {"who": "alice", "groups": None, "v": [1, 2], "items": [{"op": "Query"}]}
+        probe = {"who": "alice", "groups": None, "v": [1, 2],
+                 "items": [[{"op": "Locate"}, F.create_item(), {"op": "Query"}][k % 3]]}
+        out.append({"mode": "session", "who": "alice", "chunks": None,
+                    "prefix": [big] if k % 2 == 0 else [small, big], "probe": probe})
+    return out
+
+
+def _big_frame(req):
+    """Reference encoding of: Register an Opaque Object of req['big'] bytes (no attributes)."""
+    from vlib import ttlvref as R
+    v = req["v"]
+    hdr = R.encode_struct(R.T_REQUEST_HEADER, [
+        R.encode_struct(R.T_PROTOCOL_VERSION, [R.encode_integer(R.T_PROTOCOL_VERSION_MAJOR, v[0]),
+                                               R.encode_integer(R.T_PROTOCOL_VERSION_MINOR, v[1])]),
+        R.encode_integer(R.T_BATCH_COUNT, 1)])
+    payload = R.encode_struct(R.T_REQUEST_PAYLOAD, [
+        R.encode_enum(0x420057, 8),                                   # Object Type: Opaque Object
+        R.encode_struct(0x420091, []),                                # Template-Attribute
+        R.encode_struct(0x42005B, [R.encode_enum(0x420059, 0x80000001),   # Opaque Data Type
+                                   R.encode_bytes(0x42005A, b"\x5a" * req["big"])])])
+    item = R.encode_struct(R.T_BATCH_ITEM, [R.encode_enum(0x42005C, 3), payload])
+    return R.encode_struct(R.T_REQUEST_MESSAGE, [hdr, item])
 
 
 def _frame(req):
     req = dict(req)
     req.pop("who", None)
     req.pop("groups", None)
+    if "ts_off" in req:
+        req["ts"] = SESSION_NOW + req.pop("ts_off")
+    if "big" in req:
+        return _big_frame(req)
     return H.encode_request(req)
 
 
@@ -223,7 +283,7 @@ def run_session_case(spec):
     buckets, classes = [], ["mode:session"]
     box = {"fresh": None}
     try:
-        H.CLOCK.now = 1_700_000_200
+        H.CLOCK.now = SESSION_NOW
         try:
             frames = [_frame(r) for r in spec["prefix"]]
             pframe = _frame(spec["probe"])
@@ -244,8 +304,18 @@ def run_session_case(spec):
                                    chunks=spec.get("chunks"), conn_hook=hook,
                                    max_loops=nprefix + 4)
         if errors or len(conn.sent) != nprefix + 1 or box["fresh"] is None:
-            # the session did not answer every frame once: C12's business, not judged here
-            return [], False, classes + ["session-irregular"]
+            # The session did not answer every frame once although every frame is a well-formed
+            # request.  How a session treats bytes is C12's business; here it matters only if
+            # the probe, sent alone on a new connection, IS answered: then what happened to it
+            # depended on the requests before it.
+            fresh = srv.fresh_engine_on_copy()
+            conn2, errors2 = fresh.session(pframe, cn=spec["who"], max_loops=4)
+            if not errors2 and len(conn2.sent) == 1:
+                buckets.append(("C11|session|probe-not-answered-behind-earlier-requests",
+                                "%d well-formed requests on one connection: %d answers, loop exceptions %r; "
+                                "the probe alone on a new connection is answered"
+                                % (nprefix + 1, len(conn.sent), [repr(e)[:200] for e in errors[:3]])))
+            return buckets, True, classes + ["session-irregular"]
         fresh = box["fresh"]
         conn2, errors2 = fresh.session(pframe, cn=spec["who"], max_loops=4)
         if errors2 or len(conn2.sent) != 1:
@@ -288,8 +358,11 @@ def replay(spec):
     return run_case(spec)[0]
 
 
-def worker(n, seed):
+def worker(n, seed, big=()):
     col = core.Collector(PID)
+    for spec in big:        # first: these take long, the rest of the shard follows
+        b, nt, cl = run_session_case(spec)
+        col.record(spec, nontrivial=nt, classes=cl + ["session:megabyte-request-first"], buckets=b)
 
     def one(spec):
         b, nt, cl = run_case(spec)
@@ -309,6 +382,7 @@ def run(ctx):
     store.standard_template()
     n = core.NCPU
     total = ctx.n(3000, 40000)
+    bigs = big_cases(BIG_SIZES[1:2] if ctx.quick else BIG_SIZES + BIG_SIZES)
     dicts = core.run_sharded("vlib.props.c11", "worker",
-                             [(total // n, core.derive_seed(ctx.seed, "c11", i)) for i in range(n)])
+                             [(total // n, core.derive_seed(ctx.seed, "c11", i), bigs[i::n]) for i in range(n)])
     return core.merged(PID, dicts)
